@@ -231,6 +231,35 @@ def h_registry(c):
         c.check('other-key-unaffected', X.Iff(Rm.calendar(k1).is_bday(probe), X.And(X.Not(wkend), X.Not(inlist(probe, H1)))))
     Rm.calendars.clear()
 
+def h_registry_indexed(c):
+    """re-registering a key whose calendar has already built its business-day index: the calendar fetched afterwards answers the indexed path
+    (add with |n| = 2) from the holidays it was last registered with.  Bounds: a 10-day range from any day of 1900-2300, one symbolic holiday per registration, probe day 2..4 days in"""
+    Rm = R()
+    td = shims.shim_timedelta if c.mode == 'sym' else _rdt.timedelta
+    base = c.day('base', ORD_MIN + 10, ORD_MAX - 40); W = 9
+    def hols(tag):
+        return [base + td(days = c.int('%s.%d' % (tag, i), 0, W)) for i in range(1)]
+    H1 = hols('H1'); H2 = hols('H2')
+    t0 = base; t1 = base + td(days = W)
+    Rm.calendars.clear()
+    first = Rm.calendar('K', H1, t0 = t0, t1 = t1)
+    poff = c.int('probe', 2, 4); probe = base + td(days = poff)
+    try: first.add(probe, 2)                                 # the earlier history used the indexed path, so the index of the first registration exists
+    except KeyError: pass
+    Rm.calendar('K', H2, t0 = t0, t1 = t1)                   # the step: re-registration of the same key with other holidays
+    got = Rm.calendar('K')
+    def bd(i):
+        d = base + td(days = i)
+        return X.And(d.weekday() <= 4, X.Not(X.Or([key(d) == key(x) for x in H2]) if H2 else False))
+    c.cover('holidays-differ', X.Or([X.Not(X.Or([key(x) == key(y) for y in H1]) if H1 else False) for x in H2]) if H2 else len(H1) > 0)
+    sg = c.pick('sign', [1, -1])
+    try: r = got.add(probe, 2 * sg)
+    except KeyError: Rm.calendars.clear(); return
+    ro = X.ordinal(r) - X.ordinal(base)
+    c.check('indexed-add-lands-on-a-business-day-of-the-last-registration', X.Or([X.And(ro == i, bd(i)) for i in range(W + 1)]))
+    c.check('indexed-add-agrees-with-two-single-steps-under-the-last-registration', key(r) == key(got.add(got.add(probe, sg), sg)))
+    Rm.calendars.clear()
+
 def obligations(tier):
     q = tier == 'quick'; W = 14 if q else 21; N = 3 if q else 6
     S = setup
@@ -263,4 +292,6 @@ def obligations(tier):
             obs.append(Ob('drange.%s.%s.%d' % (wk, adj, j), h_drange(W, wk, adj), setup = S, pins = {'j': i}, budget_s = 600 if q else 2400,
                           desc = "Calendar.drange(t0,t1,'1b') lists exactly the business days between the adjusted endpoints (endpoints %d days apart)" % j))
     obs.append(Ob('registry', h_registry, setup = S, budget_s = 300, desc = 'calendar(key) reflects the last registration (one step from an arbitrary earlier registration)'))
+    for i, sg in enumerate((1, -1)):
+        obs.append(Ob('registry.indexed.%d' % sg, h_registry_indexed, setup = S, pins = {'sign': i}, budget_s = 600, desc = 'after re-registering a key whose calendar had already built its index, add(t,%d) of the fetched calendar follows the last registration' % (2 * sg)))
     return obs
